@@ -431,6 +431,45 @@ package zygo
 //@ ghost declared := 0 @entry
 //@ ghost declared := ite(typeis(ret0, *SexpFunction), ret0.(*SexpFunction).nargs, 0) @after call LexicalLookupSymbol[0]
 //@ C01,C04 ensures arity-of-a-tail-call-is-checked: r0 == nil && fixedArity ==> c.nargs == declared
+// more forms that must leave a value: a bare (return), an (include ...) that sourced nothing
+//@ func (*Generator).GenerateReturn
+//@ C01,C02,C04 ensures a-bare-return-has-a-value: r0 == nil && len(xs) == 0 ==> len(gen.instructions) == old(len(gen.instructions)) + 1 && typeis(gen.instructions[len(gen.instructions)-1], PushInstr)
+//@ func (*Generator).GenerateInclude
+//@ C01,C04 ensures an-include-leaves-code-for-a-value: r0 == nil ==> len(gen.instructions) != old(len(gen.instructions))
+// (source ...) takes a result from the data stack only if the sourcing left one, and leaves the
+// stack as deep as it found it however many files were sourced
+//@ func (*Stack).Size
+//@ C04 pure
+//@ C04 ensures r0 == stack.tos + 1
+//@ func SourceFileFunction
+//@ ghost startTos := env.datastack.tos @entry
+//@ C04 assert takes-a-result-only-if-one-was-left @before call PopExpr[0]: arg0 == env.datastack && env.datastack.tos > startTos
+//@ C04 assert leaves-the-stack-as-deep-as-it-was @before call TruncateToSize[0]: arg0 == env.datastack && arg1 == startTos + 1
+// (var x T) binds a value: a type whose factory makes nothing (a slice type that exists by name
+// only) cannot be declared a variable of; wrapping "nothing" for reflection makes a zero Value
+// that every later use of x panics on, outside any recover
+//@ func VarBuilder
+//@ C01 assert no-variable-of-nothing @before call ValueOf[*]: !(arg0 == nil)
+// a selector that is not set (the zero object (var x arraySelector) makes) answers with an error
+// or a placeholder; it does not reach through its nil container
+//@ func (*SexpArraySelector).SexpString
+//@ requires si != nil
+//@ C01 nonil
+//@ func (*SexpArraySelector).sliceBounds
+//@ requires x != nil
+//@ C01 nonil
+//@ func (*SexpHashSelector).SexpString
+//@ requires si != nil
+//@ C01 nonil
+//@ func (*SexpArraySelector).RHS
+//@ requires x != nil
+//@ func (*SexpArraySelector).AssignToSelection
+//@ requires x != nil
+//@ func (*SexpHashSelector).RHS
+//@ requires x != nil
+//@ C01 nopanic
+//@ C01 ensures an-unset-selector-is-an-error: old(x.Select == nil || x.Container == nil) && env != nil ==> r1 != nil
+
 // mdef: every target slot is filled with a symbol before the value is compiled; the bind
 // instruction hands each one to BindSymbol, which dereferences it
 //@ func (*Generator).GenerateMultiDef
